@@ -14,7 +14,7 @@ CHECKS = {
          "DESIGN.md §4 C01"),
  "C02": ("model_checking",
          "bounded-exhaustive enumeration of (type, value) states in both directions against google.protobuf, plus breadth-first enumeration of every re-encoding reachable with <=D spec-level rewrite operators (legality decided by the reference decoder)",
-         "Every universe case is encoded by betterproto and decoded by the reference and vice versa; for every single-unit type and value every alternative encoding within D rewrite operators (all permutations, packed/unpacked, every 2/3-way chunk split, mixed, non-minimal tag/length/value varints, 32-bit kinds carried in longer varints (missing sign extension, bits above bit 31, non-0/1 bools), default-valued key / value fields of map entries left out or spelled out, duplicated singular scalars, earlier oneof siblings, unknown records at every gap, the same inside nested messages and map entries) that the reference accepts as the same message is decoded by betterproto and compared.",
+         "Every universe case is encoded by betterproto and decoded by the reference and vice versa; for every single-unit type and value every alternative encoding within D rewrite operators (all permutations, packed/unpacked, every 2/3-way chunk split, mixed, non-minimal tag/length/value varints, 32-bit kinds carried in longer varints (missing sign extension, bits above bit 31, non-0/1 bools), default-valued key / value fields of map entries left out or spelled out, duplicated singular scalars, earlier oneof siblings, unknown records at every gap, the same inside nested messages and map entries) that the reference accepts as the same message is decoded by betterproto and compared (for types with oneofs also: a deep copy of the decoded message encodes alike and unselected members are unreadable).",
          "trusts google.protobuf (upb) as the reference decoder and the rewrite operators' completeness for the property's list of legal alternatives",
          "DESIGN.md §4 C02"),
  "C09": ("model_checking",
@@ -44,12 +44,12 @@ CHECKS = {
          "DESIGN.md §4 C17"),
  "C07": ("model_checking",
          "explicit-state breadth-first search to a fixpoint over the complete internal state of a real message under a finite operation alphabet, against a last-writer-wins reference model",
-         "From every constructor (incl. the illegal two-member one) every operation of the alphabet (set each member to default/non-default, plain field, parse of every 0..2 member records in every order into the live instance, instance/class from_dict, copy, deepcopy, pickle, reads) is applied in every reachable state until no new state appears; in every state which_one_of, AttributeError on siblings, the wire tokens and the to_dict keys are compared with the model; after every copy/deepcopy/pickle edge each member is assigned on the copy (and on the original) and the other message must be unaffected. Members: int32, string, enum, message, bool, Timestamp, Duration, wrapper in three groups declared interleaved; a second message declares its members the plugin's pydantic way (optional=True) with one single-member group. Covers all finite histories over the alphabet; on a tree that breaks the invariant the search stops after the first violating level.",
+         "From every constructor (incl. the illegal two-member one) every operation of the alphabet (set each member to default/non-default, plain field, parse of every 0..2 member records in every order (and A, B, A within a group) into the live instance, instance/class from_dict, copy, deepcopy, pickle, reads) is applied in every reachable state until no new state appears; in every state which_one_of, AttributeError on siblings, the wire tokens and the to_dict keys are compared with the model; after every copy/deepcopy/pickle edge each member is assigned on the copy (and on the original) and the other message must be unaffected. Members: int32, string, enum, message, bool, Timestamp, Duration, wrapper in three groups declared interleaved; a second message declares its members the plugin's pydantic way (optional=True) with one single-member group. Covers all finite histories over the alphabet; on a tree that breaks the invariant the search stops after the first violating level.",
          "state key = full __dict__ (no abstraction); model = dict group -> last set member",
          "DESIGN.md §4 C07"),
  "C14": ("model_checking",
          "explicit-state breadth-first search to a fixpoint over the complete internal state of a real message; every observer and copy operation in every reachable state, edge invariant by differential replay",
-         "82 initial states (13 values x constructor / setattr / in-place / parse / parse-with-unknown-fields / from_dict, plus lazily built ones whose parents were only ever read) x 27 observers (incl. == against messages with another oneof selection) and copy, deepcopy, pickle, closed under composition, plus ALL observer sequences of length <=2 (3) without state merging (hidden class-level state): on every edge the observable projection (bytes, values, presence, oneof, element types) must equal that of a separate replay without the operation; copies must be equal, byte-identical and (deep copies) independent under 12 mutators, including decoding further input into the copy.",
+         "82 initial states (13 values x constructor / setattr / in-place / parse / parse-with-unknown-fields / from_dict, plus lazily built ones whose parents were only ever read) x 27 observers (incl. == against messages with another oneof selection) and copy, deepcopy, pickle, closed under composition, plus ALL observer sequences of length <=2 (3) without state merging (hidden class-level state): on every edge the observable projection (bytes, values, presence, oneof, element types) must equal that of a separate replay without the operation; copies must be equal, byte-identical and (deep copies) independent under 12 mutators, including decoding further input into the copy; a scalar-only message decoded from 8 non-canonical encodings is observed and copied the same way.",
          "state key = full __dict__; one message class covering nested, optional, oneof, map-of-message, repeated, Timestamp, wrapper and enum fields",
          "DESIGN.md §4 C14"),
  "C15": ("model_checking",
@@ -64,7 +64,7 @@ CHECKS = {
          "DESIGN.md §4 C19"),
  "C20": ("model_checking",
          "exhaustive enumeration of all enum definitions with 1..3 members over 6 numbers (aliases included) and 3 member-name shapes and of all (field position, number) pairs, against a dict model",
-         "All 258 number patterns x 3 member-name shapes (A/B/C, underscore-led names, names carrying the class name as prefix next to the bare name) are created with the real metaclass: lookup by number/name/attribute returns the one canonical member with the declared name and number; copy/deepcopy identity; pickle; openness (try_value) and closedness (call) for undefined numbers; every mutation attempt on class and members (member names, new names, internal tables, dunder names) raises and leaves behaviour unchanged. Every defined/undefined number in singular, optional, oneof, repeated and map-value position survives binary and JSON round trips in both casings.",
+         "All 258 number patterns x 3 member-name shapes (A/B/C, underscore-led names, names carrying the class name as prefix next to the bare name) are created with the real metaclass: lookup by number/name/attribute returns the one canonical member with the declared name and number; copy/deepcopy identity; pickle; openness (try_value) and closedness (call) for undefined numbers; every mutation attempt on class and members (member names, new names, internal tables, dunder names) raises and leaves behaviour unchanged. Every defined/undefined number in singular, optional, oneof, repeated and map-value position survives binary and JSON round trips in both casings, also through classes the plugin generates with and without pydantic_dataclasses.",
          "definitions limited to 3 members over 6 numbers; plugin-generated enums are covered by C03",
          "DESIGN.md §4 C20"),
  "C04": ("model_checking",
@@ -99,12 +99,12 @@ CHECKS = {
          "DESIGN.md §4 C13"),
  "C18": ("translation_validation",
          "exhaustive enumeration of option sets (3 typing modes x std/pydantic) x schemas (every structure atom, an everything-schema, cross-package programs; all atom pairs in the thorough tier), each compiled with the real plugin, imported and compared with the default configuration",
-         "Every variant must import; class sets, field numbers, proto types, map types, oneof groups, wrapper mapping, enum members and generated service classes must equal the default configuration's; a deterministic sample value of every message class (derived from metadata and resolved hints) must encode to identical bytes and identical JSON under all six configurations.",
+         "Every variant must import; class sets, field numbers, proto types, map types, oneof groups, wrapper mapping, enum members and generated service classes must equal the default configuration's; a deterministic sample value of every message class (derived from metadata and resolved hints) must encode to identical bytes and identical JSON under all six configurations; packages that import each other in a cycle (three shapes) must be importable in every order under every configuration.",
          "pydantic oneof members are Optional by design and are compared modulo that",
          "DESIGN.md §4 C18"),
  "C11": ("exploration",
          "exhaustive enumeration of (method, request tuple, response-stream length, source kind, handler outcome) and of all 64 stub-level/call-level timeout/deadline/metadata combinations, each executed as a real rpc through the generated stub, grpclib's in-process channel and the generated server base",
-         "Services generated by the real plugin cover all four cardinalities, re-cased method names, cross-package, nested and well-known request/response types and a second service sharing a method name. For every case exactly one handler - the right one - must run with requests equal and in order, the caller must receive the responses equal and in order, a method that is not overridden must answer UNIMPLEMENTED, a handler's GRPCError status and message must reach the caller, 400 x 40 kB each way must pass through every streaming cardinality, deprecated rpcs must work, three calls on ONE stub 3000 s apart (fake clock inside grpclib.metadata) must each get the full stub-level timeout and the shrinking stub-level deadline, of two calls in flight on one stub the survivor of a cancellation must finish intact, and the server must observe exactly the metadata pairs (mapping, pairs, pairs with a repeated key and a -bin value) and the deadline the precedence rule (call-level over stub-level) predicts.",
+         "Services generated by the real plugin cover all four cardinalities, re-cased method names, cross-package, nested and well-known request/response types and a second service sharing a method name. For every case exactly one handler - the right one - must run with requests equal and in order, the caller must receive the responses equal and in order, a method that is not overridden must answer UNIMPLEMENTED, a handler's GRPCError status and message must reach the caller, 400 x 40 kB each way must pass through every streaming cardinality, a ping-pong conversation over a bidirectional stream must not be held back, deprecated rpcs must work, three calls on ONE stub 3000 s apart (fake clock inside grpclib.metadata) must each get the full stub-level timeout and the shrinking stub-level deadline, of two calls in flight on one stub the survivor of a cancellation must finish intact, and the server must observe exactly the metadata pairs (mapping, pairs, pairs with a repeated key and a -bin value) and the deadline the precedence rule (call-level over stub-level) predicts.",
          "natural asyncio schedule; deadline observed as time remaining with a 20 s tolerance (configured deadlines 50 s .. 10000 s)",
          "DESIGN.md §4 C11"),
 }
